@@ -248,7 +248,11 @@ def main():
                 sp = sp[:6]
             for d in sp:
                 args = (['--dir', d] if d is not None else []) + ['--json', 'where']
-                queries.append((pwd, d, classify(*run(args, cwd, pwd=pwd))))
+                queries.append((pwd, d, (args, cwd)))
+    import concurrent.futures as _cf
+    with _cf.ThreadPoolExecutor(max_workers=12) as ex:       # the real tool answers the queries in parallel (read-only)
+        obs_all = list(ex.map(lambda q: classify(*run(q[2][0], q[2][1], pwd=q[0])), queries))
+    queries = [(q[0], q[1], o) for q, o in zip(queries, obs_all)]
     # Go's os.Getwd ignores a $PWD that is not the same directory; sanity check that ours were accepted:
     em = Emit()
     rows = []
@@ -261,11 +265,15 @@ def main():
     fs_dirs = '[' + ';'.join(em.s(x) for x in dirs) + ']'
     fs_files = '[' + ';'.join(em.s(x) for x in files) + ']'
     body.append('Definition F : fs := fs_of %s %s.' % (fs_dirs, fs_files))
-    body.append('Definition rows : list (N * string * string * dres) := [\n' + ';\n'.join(rows) + '].')
-    body.append('''Definition bad (r : N * string * string * dres) : list N :=
+    BAD = '''Definition bad (r : N * string * string * dres) : list N :=
   let '(i, cwd, d, obs) := r in if bool_decide (ergo_dir F cwd d = obs) then [] else [i].
 Definition where_bad := Eval vm_compute in flat_map bad rows.
-Print where_bad.''')
+Print where_bad.'''
+    NSH = 8
+    shard_rows = [rows[k::NSH] for k in range(NSH)]
+    fdef = body[0]
+    body.append('Definition rows : list (N * string * string * dres) := [\n' + ';\n'.join(shard_rows[0]) + '].')
+    body.append(BAD)
 
     # ---------------------------------------------------------------- 2. log choice: which file does `list` read?
     store_rows, observed_log = [], {}
@@ -335,7 +343,20 @@ Definition init_bad := Eval vm_compute in flat_map ibad irows.
 Print init_bad.''']
 
     full = '\n'.join([HEADER] + em.defs + body + body2 + body3) + '\n'
-    res = coq_eval(full, 'DiscoveryCases')
+    import concurrent.futures as _cf
+
+    def used_defs(text):
+        return list(em.defs)      # path pieces: few and cheap
+    jobs = [(full, 'DiscoveryCases')]
+    for k in range(1, NSH):
+        if shard_rows[k]:
+            rtxt = 'Definition rows : list (N * string * string * dres) := [\n' + ';\n'.join(shard_rows[k]) + '].'
+            jobs.append(('\n'.join([HEADER] + used_defs(fdef + rtxt) + [fdef, rtxt, BAD]) + '\n', 'DiscoveryCases_w%d' % k))
+    with _cf.ThreadPoolExecutor(max_workers=NSH) as ex:
+        outs = list(ex.map(lambda j: coq_eval(*j), jobs))
+    res = outs[0]
+    for o in outs[1:]:
+        res['where_bad'] = res.get('where_bad', []) + o.get('where_bad', [])
     kinds = {}
     for _, _, o in queries:
         kinds[o[0]] = kinds.get(o[0], 0) + 1
